@@ -129,15 +129,15 @@ exactly the kept tips, in their original order, and every path length among kept
 unchanged — single-child chains are merged by adding lengths.  For every tree with distinct
 tips whose non-root edges all have a length satisfying `P` (`P` closed under `+`, `¬ P 0`: e.g.
 "positive"; the code drops a merged length that sums to zero or has a missing part). -/
-theorem subtree_restricts [AddCommMonoid K] [DecidableEq K] (P : K → Prop)
-    (hadd : ∀ x y, P x → P y → P (x + y)) (h0 : ¬ P 0) (d : K)
+theorem subtree_restricts [AddCommMonoid K] (P : K → Prop)
+    (hadd : ∀ x y, P x → P y → P (x + y)) (d : K)
     (t : PTree K) (names : List String) (ignoreMissing keepRoot : Bool) (r : PTree K)
     (h : getSubTree t names ignoreMissing keepRoot true = .ok r)
     (hg : GoodLensL P t.children) (hnd : (tips t).Nodup) :
     tips r = (tips t).filter (fun x => names.contains x) ∧
       ∀ a b, names.contains a = true → names.contains b = true → a ∈ tips t → b ∈ tips t →
         distSpec d a b r = distSpec d a b t :=
-  getSubTree_spec P hadd h0 d t names ignoreMissing keepRoot r h hg hnd
+  getSubTree_spec P hadd d t names ignoreMissing keepRoot r h hg hnd
 
 example : GoodLensL (fun x : Int => 0 < x)
     (PTree.node "" none [.node "x" (some 3) [.node "a" (some 1) [], .node "b" (some 2) []], .node "c" (some 4) []]).children := by
@@ -360,14 +360,14 @@ the source bipartitions to the kept tips, with the weights of merged edges added
 trivial ones dropped: every bipartition functional over the kept tips has the same value on the
 result and on the source (a predicate on the kept tips sees only the restriction of a side).
 The result's edges still have lengths in `P`. -/
-theorem subtree_restricts_splits [AddCommMonoid K] [DecidableEq K] (P : K → Prop)
-    (hadd : ∀ x y, P x → P y → P (x + y)) (h0 : ¬ P 0) (d : K)
+theorem subtree_restricts_splits [AddCommMonoid K] (P : K → Prop)
+    (hadd : ∀ x y, P x → P y → P (x + y)) (d : K)
     (t : PTree K) (names : List String) (ignoreMissing keepRoot : Bool) (r : PTree K)
     (h : getSubTree t names ignoreMissing keepRoot true = .ok r)
     (hg : GoodLensL P t.children) (hnd : (tips t).Nodup) :
     tips r = (tips t).filter (fun x => names.contains x) ∧ GoodLensL P r.children ∧
       ∀ φ, BipPred (tips r) φ → topoWeight d φ r = topoWeight d φ t :=
-  getSubTree_phi P hadd h0 d t names ignoreMissing keepRoot r h hg hnd
+  getSubTree_phi P hadd d t names ignoreMissing keepRoot r h hg hnd
 
 example :
     let t : PTree Int := .node "" none [.node "x" (some 3) [.node "a" (some 1) [], .node "y" (some 7) [.node "b" (some 2) [], .node "e" (some 1) []]],
@@ -388,25 +388,25 @@ pruning steps. -/
 /-- Arbitrary compositions of every transformation the property lists: the final tips are the
 original tips filtered by all pruning steps (up to order), all edges still have lengths in `P`,
 and the weighted unrooted topology among the retained tips is unchanged. -/
-theorem full_history_preserves [AddCommMonoid K] [DecidableEq K] (P : K → Prop)
-    (hadd : ∀ x y, P x → P y → P (x + y)) (h0 : ¬ P 0) (d : K)
+theorem full_history_preserves [AddCommMonoid K] (P : K → Prop)
+    (hadd : ∀ x y, P x → P y → P (x + y)) (d : K)
     (ops : List XOp) (t r : PTree K) (h : applyXs t ops = some r) (hdeg : 2 ≤ t.children.length)
     (hnd : (tips t).Nodup) (hg : GoodLensL P t.children) :
     (tips r).Perm ((tips t).filter (keptAll ops)) ∧ GoodLensL P r.children ∧
       ∀ φ, BipPred (tips r) φ → topoWeight d φ r = topoWeight d φ t :=
-  let s := applyXs_ok P hadd h0 d ops t r h hdeg hnd hg
+  let s := applyXs_ok P hadd d ops t r h hdeg hnd hg
   ⟨s.tips, s.good, s.topo⟩
 
 /-- … in particular every tip-to-tip path length among retained tips, as reported by the modelled
 `get_distances()` on the final and on the original tree. -/
-theorem full_history_preserves_get_distances [AddCommMonoid K] [DecidableEq K] (P : K → Prop)
-    (hadd : ∀ x y, P x → P y → P (x + y)) (h0 : ¬ P 0) (d : K)
+theorem full_history_preserves_get_distances [AddCommMonoid K] (P : K → Prop)
+    (hadd : ∀ x y, P x → P y → P (x + y)) (d : K)
     (ops : List XOp) (t r : PTree K) (h : applyXs t ops = some r) (hdeg : 2 ≤ t.children.length)
     (hnd : (tips t).Nodup) (hg : GoodLensL P t.children)
     (a b : String) (ha : a ∈ tips r) (hb : b ∈ tips r) (hab : a ≠ b) :
     lookupLast (a, b) (getDistances d r) = lookupLast (a, b) (getDistances d t) ∧
       distSpec d a b r = distSpec d a b t := by
-  have s := applyXs_ok P hadd h0 d ops t r h hdeg hnd hg
+  have s := applyXs_ok P hadd d ops t r h hdeg hnd hg
   have hndr : (tips r).Nodup := (s.tips.nodup_iff).2 (hnd.filter _)
   have sub : ∀ x ∈ tips r, x ∈ tips t := fun x hx => (List.mem_filter.1 ((s.tips.mem_iff).1 hx)).1
   have hd : distSpec d a b r = distSpec d a b t := s.topo (sep a b) (bipPred_sep _ a b ha hb)
